@@ -55,6 +55,82 @@ STYLES = [{"sel": s, "lit": l, "ws": w, "paren": p, "cont": c, "dneg": dn}
           for s in ("auto", "bracket", "backtick", "pointer") for l in ("auto", "dq", "raw", "bare") for w in ("", "wide", "tight") for p in (0, 1, 2) for c in (False, True)
           for dn in (0, 1, 2) if not (dn and p == 2)]
 
+KEYWORDS = {"not", "and", "or", "in", "is", "any", "all", "as", "contains", "matches", "empty"}
+import re
+IDENT = re.compile(r"^[a-zA-Z][a-zA-Z0-9_/]*$")
+DIGITS = re.compile(r"^[0-9]+$")
+NUM = re.compile(r"^-?(0|[1-9][0-9]*)(\.[0-9]+)?$")
+BAREWORD = re.compile(r"^[a-zA-Z][a-zA-Z0-9_/]*(\.([a-zA-Z][a-zA-Z0-9_/]*|[0-9]+))*$")
+SEG = re.compile(r"^[A-Za-z0-9\-_.~:|]+$")
+
+
+def dq(s):
+    if '"' in s:
+        return []
+    out = ['"']
+    for ch in s:
+        out += {"\\": ["\\", "\\"], "\n": ["\\", "n"], "\t": ["\\", "t"], "\r": ["\\", "r"]}.get(ch, [ch])
+    return out + ['"']
+
+
+def raw(s):
+    return [] if ("`" in s or "\r" in s) else ["`"] + list(s) + ["`"]
+
+
+def lit_table(vals):
+    t = {}
+    for v in vals:
+        bare = list(v) if NUM.match(v) or (BAREWORD.match(v) and not (set(v.split(".")) & KEYWORDS)) else []
+        t[v] = {"dq": dq(v), "raw": raw(v), "bare": bare}
+    return t
+
+
+def part_table(parts):
+    t = {}
+    for p in parts:
+        esc = p.replace("~", "~0").replace("/", "~1")
+        t[p] = {"ident": list(p) if IDENT.match(p) and p not in KEYWORDS else [], "digits": list(p) if DIGITS.match(p) else [],
+                "br": dq(p), "bt": raw(p), "ptr": list(esc) if SEG.match(esc) else []}
+    return t
+
+
+def lang_world(quick):
+    """universe of the model-level round trip (spec/Lang.tla): TLC builds every tree over these atoms and shells"""
+    m = match
+    atoms = [m(["a"], "==", "1"), m(["foo", "bar"], "!=", "x y"), m(["a", "0", "b c"], "in", "v1.2"), m(["m", "a/b"], "notin", "-3"),
+             m(["x"], "empty"), m(["x", "007"], "notempty"), m(["s"], "matches", "^a\\.b$"), m(["s", "a~b"], "notmatches", "1.5"),
+             m(["k"], "==", "/usr/bin"), m(["v", "id"], "==", "hello world")]
+    if quick:
+        atoms = [atoms[1], atoms[2], atoms[4]]
+    colls = [{"op": "any", "sel": {"ty": "bexpr", "path": ["xs"]}, "mode": "default", "n1": "v", "n2": ""},
+             {"op": "all", "sel": {"ty": "bexpr", "path": ["m", "ys"]}, "mode": "both", "n1": "k", "n2": "v"},
+             {"op": "any", "sel": {"ty": "bexpr", "path": ["xs", "0"]}, "mode": "index", "n1": "k", "n2": ""},
+             {"op": "all", "sel": {"ty": "bexpr", "path": ["xs"]}, "mode": "value", "n1": "", "n2": "v"}]
+    colls = colls[1:2] if quick else colls[:3]
+    for a in atoms:
+        for k in ("mode", "n1", "n2"):
+            a.pop(k, None)
+        if not a["hv"]:
+            a["val"] = ""
+    vals = {a["val"] for a in atoms if a["hv"]}
+    parts = {p for a in atoms for p in a["sel"]["path"]} | {p for c in colls for p in c["sel"]["path"]}
+    dims = {"ws": ["one", "tight", "wide"], "paren": [0, 1, 2], "lit": ["dq", "raw", "bare"], "sel": ["dot", "br", "bt", "ptr"], "cont": [False, True], "dneg": [0, 1, 2]}
+    base = {"ws": "one", "paren": 0, "lit": "dq", "sel": "dot", "cont": False, "dneg": 0}
+    styles = [dict(base)]
+    for k, vs in dims.items():
+        for v in vs[1:]:
+            styles.append(dict(base, **{k: v}))
+    if not quick:
+        allst = [{"ws": w, "paren": p, "lit": l, "sel": s_, "cont": c, "dneg": d} for w in dims["ws"] for p in dims["paren"] for l in dims["lit"]
+                 for s_ in dims["sel"] for c in dims["cont"] for d in dims["dneg"] if not (d and p == 2)]
+        styles += random.Random(7).sample(allst, 50)
+    else:
+        styles += [{"ws": "tight", "paren": 1, "lit": "raw", "sel": "ptr", "cont": True, "dneg": 0}, {"ws": "wide", "paren": 0, "lit": "bare", "sel": "br", "cont": True, "dneg": 2},
+                   {"ws": "tight", "paren": 2, "lit": "dq", "sel": "bt", "cont": False, "dneg": 0}]
+    g = json.load(open(os.path.join(vlib.SPEC, "grammar_frozen.json")))
+    return {"grammar": g, "atoms": atoms, "colls": colls, "maxn": 3, "parenbudget": 2 if quick else 4, "styles": styles, "lits": lit_table(vals), "parts": part_table(parts)}
+
+
 ALPHA = ["a", "0", "/", "~", "\\", '"', "`", " ", "\n", "\r", "\t", "<0>", "<L>", ".", "-", "_", "1"]
 
 
@@ -83,8 +159,8 @@ def main():
         seeds.append(s)
         expect.append(t)
         meta.append((r["i"], r["style"], r["text"]))
-    if quick and len(seeds) > 2500:
-        idx = sorted(rnd.sample(range(len(seeds)), 2500))
+    if quick and len(seeds) > 800:
+        idx = sorted(rnd.sample(range(len(seeds)), 800))
         seeds, expect, meta = [seeds[i] for i in idx], [expect[i] for i in idx], [meta[i] for i in idx]
     world = pegrun.peg_world([], 0, 3, seeds, expect=expect)
     with open(os.path.join(wd, "expect.json"), "w") as fh:
@@ -109,6 +185,23 @@ def main():
         raise vlib.Infra("the reference grammar does not read %d renderings back as the trees they were rendered from (renderer or reference "
                          "problem), e.g. %s" % (len(res["specround"]), json.dumps(res["specround"][0])[:500]))
     for m in res["round"]:
+        chk.violation({"what": m["what"], "text": m["input"], "tree": m["spec"], "parsed": m["impl"].get("ast") if isinstance(m["impl"], dict) else m["impl"],
+                       "verdict": m["impl"].get("acc") if isinstance(m["impl"], dict) else ""})
+    # the round trip as a property of the specification: TLC builds every tree over a pool and renders it itself (Lang.tla)
+    lw = lang_world(quick)
+    lwd = vlib.sub("c16-lang")
+    r = vlib.run_tlc("Lang", cfg, lwd, files={"world.json": lw}, timeout=3000)
+    chk.add_tlc(r)
+    with open(os.path.join(lwd, "cases.ndjson"), "w") as fh:
+        for c in r.cases:
+            fh.write(json.dumps(c) + "\n")
+    vlib.harness(["parse", "-cases", os.path.join(lwd, "cases.ndjson"), "-out", os.path.join(lwd, "parse.json"), "-shapes=false"])
+    lres = json.load(open(os.path.join(lwd, "parse.json")))
+    vlib.log("c16-lang: TLC rendered %d (tree, style) pairs in %d styles and read each back; real round-trip failures: %d" % (
+        lres["inputs"], len(lw["styles"]), len(lres.get("round") or [])))
+    chk.cov["traces_validated_against_impl"] += lres["inputs"]
+    chk.cov["evaluations"] += lres["inputs"]
+    for m in lres.get("round") or []:
         chk.violation({"what": m["what"], "text": m["input"], "tree": m["spec"], "parsed": m["impl"].get("ast") if isinstance(m["impl"], dict) else m["impl"],
                        "verdict": m["impl"].get("acc") if isinstance(m["impl"], dict) else ""})
     # literal fidelity
